@@ -1,5 +1,6 @@
 import HC.Proto.H2Recv
 import HC.Proto.H11
+import HC.Proto.H11Safe
 /-!
 # C04 — no client input causes an internal error; HTTP/2 faults stay on their stream
 
@@ -10,6 +11,18 @@ libraries, every `except` clause read from the source by the extractor).
                            the negation witness (finding F44: `RecursionError` out of `next(self.priority)`).
 * `h2_protocol_error`    — `receive_data` raising any h2 `ProtocolError` ⇒ flush (GOAWAY) then `Closed`, state untouched.
 * `isolation`            — non-interference for the merely unusual events.
+
+HTTP/1 and WebSocket (over `HC.Proto.H11` / `HC.Stream.Ws`, lemmas in `HC/Proto/H11Total|H11Inv|H11Run|H11Ev|H11Safe.lean`,
+`HC/Stream/WsTotal.lean`, `HC/Lib/H11MSend.lean`):
+
+* `h1_rejected_classified` — every `none` of the model's reader step (what the driver reports as "rejected") is either an op the
+                           libraries / the scheduler cannot produce (`enabled` = LibWf false) or an exception leaving the handler
+                           at one of the places `escapeEv` names;
+* `total_h1` / `total_h1_from` — for every op sequence satisfying LibWf (any application behaviour, any interleaving, closes,
+                           shutdown, the deferred `StreamClosed` of self-answering streams) no op lets an exception escape the
+                           connection handler and the model accepts every op;
+* `total_ws` / `total_ws_from` — `WSStream.handle` never raises for any sequence of wsproto events allowed by the library's
+                           message-reassembly state, application messages (with or without a raising protocol) and closes.
 -/
 namespace HC.Props.C04
 open HC.Proto.H2Recv HC.Extracted
@@ -799,11 +812,198 @@ theorem h1_protocol_error_total (cfg : H11.Cfg) (st : H11.St) (o0 : List H11.Out
 
 end H1
 
+/-! ### HTTP/1: whole-flow totality (`total_h1`) -/
+
+section H1Total
+open HC HC.Stream HC.Proto HC.Proto.H11
+
+/-- **h1_rejected_classified**: the two meanings of the model's `none` are separated.  In any state satisfying the invariant,
+    when the reader step of `HC.Proto.H11` answers `none` (the driver's "rejected") then either the op was not enabled — the
+    reader is not in its loop, the protocol object was replaced, or h11 / wsproto cannot produce this result in this state —
+    or an exception leaves `_handle_events` at one of the sites `escapeEv` names. -/
+theorem h1_rejected_classified (cfg : H11.Cfg) (st : H11.St) (g : Ws.Frag) (e : H11.LibEv) (hI : H11.Inv st g)
+    (h : H11.onLibEv cfg st e = none) :
+    st.pc ≠ .inLoop ∨ st.switched = true ∨ H11.libPossible cfg st g e = false ∨ (H11.escapeEv cfg st e).isSome = true :=
+  H11.none_classified cfg st g e (fun i s hi => (hI.wsObj i s hi).1) h
+
+/-- **total_h1** (from the initial state of a connection): for EVERY sequence of ops — results of `next_event()` /
+    `H11WSConnection.next_event()` with the wsproto events they carry, `send` calls of ANY application on ANY stream object (valid
+    or not, live or orphaned), `handle(Closed)`, shutdown, the deferred `StreamClosed` of a stream that answered by itself — such
+    that each op is one the libraries and the scheduler can produce in the state reached (`LibWf`), no op lets an exception
+    escape the connection handler (`escapeT = none`: not the LocalProtocolError `_send_h11_event` re-raises, not an exception out
+    of `WSStream.handle`) and the model accepts every op (never "rejected"). -/
+theorem total_h1 (cfg : H11.Cfg) (token : Bytes → Bytes) (ext : Option Bytes) (ops : List H11.OpT)
+    (hwf : H11.LibWf cfg token ext {} none ops) : H11.NoEscape cfg token ext {} none ops :=
+  H11.noEscape_of_inv cfg token ext ops {} none H11.inv_init hwf
+
+/-- … and from any state satisfying the invariant -/
+theorem total_h1_from (cfg : H11.Cfg) (token : Bytes → Bytes) (ext : Option Bytes) (ops : List H11.OpT) (st : H11.St) (g : Ws.Frag)
+    (hI : H11.Inv st g) (hwf : H11.LibWf cfg token ext st g ops) : H11.NoEscape cfg token ext st g ops :=
+  H11.noEscape_of_inv cfg token ext ops st g hI hwf
+
+/-- one op: enabled ⇒ nothing escapes, the model accepts it, the invariant is kept -/
+theorem total_h1_step (cfg : H11.Cfg) (token : Bytes → Bytes) (ext : Option Bytes) (st : H11.St) (g : Ws.Frag) (o : H11.OpT)
+    (hI : H11.Inv st g) (hen : H11.enabled cfg st g o = true) :
+    H11.escapeT cfg st o = none ∧ ∃ r, H11.stepT cfg token ext st o = some r ∧ H11.Inv r.1 (H11.ghostT g o) :=
+  H11.step_ok cfg token ext st g o hI hen
+
+/-- in the driver's terms: a LibWf run is never "rejected" -/
+theorem total_h1_never_rejected (cfg : H11.Cfg) (token : Bytes → Bytes) (ext : Option Bytes) (ops : List H11.OpT)
+    (hwf : H11.LibWf cfg token ext {} none ops) : (H11.runT cfg token ext {} ops).isSome = true :=
+  H11.runT_some_of_noEscape cfg token ext ops {} none (total_h1 cfg token ext ops hwf)
+
+/-- the executable form of LibWf (evaluated by the driver on every tapped session) implies the hypothesis of `total_h1` -/
+theorem total_h1_of_libWfB (cfg : H11.Cfg) (token : Bytes → Bytes) (ext : Option Bytes) (ops : List H11.OpT)
+    (h : H11.libWfB cfg token ext {} none ops = true) : H11.NoEscape cfg token ext {} none ops :=
+  total_h1 cfg token ext ops (H11.libWfB_sound cfg token ext ops {} none h)
+
+-- the hypothesis is satisfiable: a request with `Expect: 100-continue` and a body, its response, then (keep-alive) a WebSocket
+-- handshake, a fragmented text message with a ping in between, the client's close and `handle(Closed)`
+example :
+    let req : H11.ReqEv := {
+      method := "POST".b, target := "/a".b, version := "1.1".b,
+      headers := [("host".b, "x".b), ("expect".b, "100-continue".b), ("content-length".b, "1".b)],
+      rawHeaders := [("Host".b, "x".b), ("Expect".b, "100-continue".b), ("Content-Length".b, "1".b)] }
+    let wsreq : H11.ReqEv := {
+      method := "GET".b, target := "/ws".b, version := "1.1".b,
+      headers := [("host".b, "x".b), ("upgrade".b, "websocket".b), ("connection".b, "Upgrade".b), ("sec-websocket-key".b, "k".b), ("sec-websocket-version".b, "13".b)],
+      rawHeaders := [("Host".b, "x".b), ("Upgrade".b, "websocket".b), ("Connection".b, "Upgrade".b), ("Sec-WebSocket-Key".b, "k".b), ("Sec-WebSocket-Version".b, "13".b)] }
+    let ops : List H11.OpT := [.op .begin, .op (.ev (.request req)), .op (.ev (.data [1])), .op (.ev .eom), .op (.ev .paused),
+      .op (.sendHttp 0 (some (.start (some 200) (some []) false))), .op (.sendHttp 0 (some (.body none false))),
+      .op (.ev (.request wsreq)), .op (.ev .needData),
+      .op (.sendWs 1 (some (.accept none []))), .op .begin,
+      .op (.ev (.wsData [] [.message (.text ['a']) false, .ping [], .message (.text ['b']) true])), .op (.ev .needData),
+      .op .begin, .op (.ev (.wsData [] [.close 1000])), .op (.ev .needData), .op .closed, .op (.sendWs 1 none), .deferredClose]
+    H11.libWfB { keepAliveMax := 10 } (fun _ => []) none {} none ops = true := by
+  decide
+
+-- … and it excludes what the libraries cannot do: no second `Request` while the first is unanswered, no `h11.Data` on a
+-- WebSocket connection, no BytesMessage fragment inside a text message
+example :
+    let req : H11.ReqEv := {
+      method := "GET".b, target := "/a".b, version := "1.1".b, headers := [("host".b, "x".b)], rawHeaders := [("Host".b, "x".b)] }
+    H11.libWfB { keepAliveMax := 10 } (fun _ => []) none {} none [.op .begin, .op (.ev (.request req)), .op (.ev (.request req))] = false := by
+  decide
+
+end H1Total
+
+/-! ### WebSocket: `WSStream.handle` never raises (`total_ws`) -/
+
+section WsTotal
+open HC HC.Stream HC.Stream.Ws
+
+/-- the ops of one WSStream: data from the protocol (with the events wsproto yields for it), `StreamClosed`, and an application
+    message — `raisedAt` names the stream event at which the protocol-level send raised, if one did -/
+inductive WsOp where
+  | data (evs : List WsEv)
+  | streamClosed
+  | app (m : Option Msg) (raisedAt : Option Ws.Ev)
+deriving Repr, DecidableEq
+
+/-- new state and the exception (if any) that left `handle` -/
+def wsStep (token : Bytes → Bytes) (ext : Option Bytes) (s : S) : WsOp → S × Option PyErr
+  | .data evs => ((handle s (.data evs)).1, (handle s (.data evs)).2.2.2)
+  | .streamClosed => ((handle s .streamClosed).1, (handle s .streamClosed).2.2.2)
+  | .app m none => ((appSend token ext s m).1, none)
+  | .app m (some e) => (stateAtRaise m s (appSend token ext s m).1 (some e), none)
+
+/-- LibWf for wsproto: the events handed over with data are allowed by the library's reassembly state (none at all while the
+    stream does not consult its wsproto connection) -/
+def wsEnabled (g : Frag) (s : S) : WsOp → Bool
+  | .data evs => dataOk g s evs
+  | _ => true
+
+def wsGhost (g : Frag) : WsOp → Frag
+  | .data evs => evsNext g evs
+  | _ => g
+
+def WsLibWf (token : Bytes → Bytes) (ext : Option Bytes) : S → Frag → List WsOp → Prop
+  | _, _, [] => True
+  | s, g, o :: os => wsEnabled g s o = true ∧ WsLibWf token ext (wsStep token ext s o).1 (wsGhost g o) os
+
+def WsNoError (token : Bytes → Bytes) (ext : Option Bytes) : S → Frag → List WsOp → Prop
+  | _, _, [] => True
+  | s, g, o :: os => (wsStep token ext s o).2 = none ∧ WsNoError token ext (wsStep token ext s o).1 (wsGhost g o) os
+
+/-- **total_ws** (from any stream state with a connection object once accepted and a buffer in step with the library): for EVERY
+    sequence of wsproto events (any kinds, fragmentation, control frames, closes, parse failures — as far as the library's
+    reassembly state allows), application messages (valid or not, answered by a raising protocol or not) and `StreamClosed`,
+    `WSStream.handle` never raises -/
+theorem total_ws_from (token : Bytes → Bytes) (ext : Option Bytes) : ∀ (ops : List WsOp) (s : S) (g : Frag),
+    Ok s → BufRel g s.buffer → WsLibWf token ext s g ops → WsNoError token ext s g ops := by
+  intro ops
+  induction ops with
+  | nil => intro s g _ _ _; trivial
+  | cons o os ih =>
+    intro s g hok hrel hwf
+    obtain ⟨hen, hrest⟩ := hwf
+    cases o with
+    | data evs =>
+      have H := handle_data_total s g evs hok hrel hen
+      exact ⟨H.1, ih _ _ H.2.1 H.2.2.1 hrest⟩
+    | streamClosed =>
+      have H := handle_closed_total s
+      refine ⟨H.1, ih _ _ (fun h => ?_) (by simp only [wsStep, wsGhost]; rw [H.2.2.2.2.1]; exact hrel) hrest⟩
+      simp only [wsStep] at h ⊢
+      rw [H.2.2.2.1]; exact hok (by rw [← H.2.2.1]; exact h)
+    | app m at' =>
+      cases at' with
+      | none =>
+        have H := appSend_keeps token ext s m hok
+        exact ⟨rfl, ih _ _ H.2.1 (by simp only [wsStep, wsGhost]; rw [H.1]; exact hrel) hrest⟩
+      | some e =>
+        have H := stateAtRaise_keeps token ext s m (some e) hok
+        exact ⟨rfl, ih _ _ H.2.1 (by simp only [wsStep, wsGhost]; rw [H.1]; exact hrel) hrest⟩
+
+/-- the stream `handle(Request)` builds satisfies the hypotheses of `total_ws_from` -/
+theorem ws_onRequest_init (maxLen : Nat) (version : String) (hdrs : Headers) (ok ping : Bool) (s : S) (puts : List AppMsg) (evs : List Ws.Ev)
+    (h : onRequest maxLen version hdrs ok ping = .ok (s, puts, evs)) : Ok s ∧ BufRel none s.buffer := by
+  obtain ⟨h', he, ha, _, _⟩ := HC.Proto.H11.scan_facts hdrs { version := version }
+  unfold onRequest Handshake.ofRequest at h
+  simp only [he, bind, Except.bind, pure, Except.pure] at h
+  have hacc : h'.accepted = false := ha
+  split at h
+  · simp only [Except.ok.injEq, Prod.mk.injEq] at h
+    obtain ⟨rfl, _⟩ := h
+    exact ⟨fun hx => by simp [hacc] at hx, bufRel_fresh _⟩
+  · split at h
+    · cases h
+    · split at h
+      · simp only [Except.ok.injEq, Prod.mk.injEq] at h
+        obtain ⟨rfl, _⟩ := h
+        exact ⟨fun hx => by simp [hacc] at hx, bufRel_fresh _⟩
+      · simp only [Except.ok.injEq, Prod.mk.injEq] at h
+        obtain ⟨rfl, _⟩ := h
+        exact ⟨fun hx => by simp [hacc] at hx, bufRel_fresh _⟩
+
+/-- **total_ws**: … for the stream of any request -/
+theorem total_ws (token : Bytes → Bytes) (ext : Option Bytes) (maxLen : Nat) (version : String) (hdrs : Headers) (ok ping : Bool)
+    (s : S) (puts : List AppMsg) (evs : List Ws.Ev) (h : onRequest maxLen version hdrs ok ping = .ok (s, puts, evs))
+    (ops : List WsOp) (hwf : WsLibWf token ext s none ops) : WsNoError token ext s none ops :=
+  total_ws_from token ext ops s none (ws_onRequest_init maxLen version hdrs ok ping s puts evs h).1
+    (ws_onRequest_init maxLen version hdrs ok ping s puts evs h).2 hwf
+
+/-- without the library restriction the statement is false: a BytesMessage fragment inside a text message (which wsproto never
+    yields) makes `WebsocketBuffer.extend` raise TypeError — the hypothesis is needed, not decoration -/
+theorem total_ws_needs_libWf :
+    (handle { hs := { version := "1.1", accepted := true }, conn := some .open, buffer := { maxLength := 10 }, st := .connected }
+      (.data [.message (.text ['a']) false, .message (.bytes [1]) true])).2.2.2 = some .typeError := by decide
+
+end WsTotal
+
 /-- `H2Protocol.initiate` (h2c upgrade): the send task is spawned before the upgrade request is handed to a stream, so a stream
     that answers by itself (404 / 400) and waits for its response to be written is not waiting for a task that does not exist
     yet (F82: the reader stayed inside `initiate` for ever); and the stream is not looked up with `[]` afterwards (it may have
     closed itself).  Liveness itself is judged by the `connection_stuck` monitor; this guard re-opens when the order changes. -/
 theorem h2_initiate_guard : C04Sites.h2InitiateSpawnFirst = true ∧ C04Sites.h2InitiateStreamLookupGuarded = true := by decide
+
+/-- every answer WSStream gives to a handshake changes the state before its first `await` — the 500 of a finished application
+    (F98), the head of a rejection (F99), `websocket.close` → 403, `websocket.accept` → 101 — so that bytes arriving whilst the
+    answer is being written are not answered with a second response (`handle` answers early data in HANDSHAKE only).  The one-op
+    model cannot see these windows (they are inside one op); `Ws.appSend` (HTTPCLOSED with the 500) and `Ws.stateAtRaise` follow
+    this order, which is read off the source on every run: moving an assignment behind its send re-opens this obligation. -/
+theorem ws_answer_order_guard : C04Sites.wsExit500StateFirst = true ∧ C04Sites.wsRejectionStateBeforeHead = true ∧
+    C04Sites.wsClose403StateFirst = true ∧ C04Sites.wsAcceptStateFirst = true := by decide
 
 /-- the one place where WSStream answers early data is the state the source names (F40): the Ws model's branch is tied
     to it -/
